@@ -5,7 +5,7 @@ schedules, kill points and injected failures (sbatch, squeue, lock, every write 
 Coq monitors; Python oracles judge impl's trace and final state directly (harness/syscheck.py)."""
 from harness import core, syscheck
 
-MODES = {'kill': 5, 'write': 4, 'squeuefail': 2, 'sbatchfail': 1, 'timeout': 1}
+MODES = {'kill': 5, 'write': 4, 'squeuefail': 3, 'sbatchfail': 1, 'timeout': 1, 'appendtimeout': 1}
 
 
 def run(chk):
